@@ -8,6 +8,7 @@
 (2) foreign protected keys built by the reference (simple / salted / iterated S2K, usage 254 and 255, every cipher,
     per-component passphrases, GNU-dummy stubs) must unlock with the right passphrase to a key that signs / decrypts
     verifiably, and refuse the wrong one."""
+import warnings
 import copy
 import gc
 
@@ -393,6 +394,80 @@ def plain_sub_case(rec, kid, sub):
         pass
 
 
+def mixed_case(rec, kid, sub, shape):
+    """keys whose components are protected differently (legal RFC 4880; GnuPG >= 2.1 protects each key on its own):
+    'plain-primary'  primary in the clear, subkey protected           -> unlock(pw) must open the subkey
+    'dummy-primary'  GnuPG --export-secret-subkeys: primary is a stub -> unlock(pw) must open the subkey
+    'reprotect'      primary in the clear, subkey protected and locked; protect(new) must not destroy the locked subkey's secret"""
+    import pgpy
+    from pgpy.constants import SymmetricKeyAlgorithm, HashAlgorithm
+    spec = rs2k.Spec('iterated', 8, b'\x11\x22\x33\x44\x55\x66\x77\x88', 3)
+    pw = 'subkey passphrase'
+    pubblob = keypool.ref_cert(kid, subkeys=((sub, 0x0C),), secret=False)
+    pk = wire.split_packets(pubblob)
+    subbody = keypool.secret_body(sub, protect={'usage': 254, 'sym': 9, 'spec': spec, 'iv': bytes(range(16)), 'passphrase': pw})
+    if shape == 'dummy-primary':
+        a, c_, params, secret, curve, kdf = keypool.numbers(kid)
+        prim = rkeys.build_gnu_dummy_body(a, c_, params, curve, kdf)
+    else:
+        prim = keypool.secret_body(kid)
+    blob = wire.build_packet(5, prim) + pk[1].raw + pk[2].raw + wire.build_packet(7, subbody) + pk[4].raw
+    case = {'kind': 'mixed', 'kid': kid, 'sub': sub, 'shape': shape}
+    rec.case(('mixed', kid, sub, shape), True, ['foreign/mixed-protection/' + shape, 'alg/' + kid.split('-')[0]], {'key': kid, 'subkey': sub, 'form': shape})
+    try:
+        key = pgpy.PGPKey.from_blob(blob)[0]
+    except Exception as e:   # noqa
+        rec.finding('foreign', 'load-exception/' + shape, case, repr(e))
+        return
+    subkey = list(key.subkeys.values())[0]
+    if shape == 'reprotect':
+        try:
+            with warnings.catch_warnings():
+                warnings.simplefilter('ignore')
+                key.protect('new passphrase', SymmetricKeyAlgorithm.AES128, HashAlgorithm.SHA256)
+            out = bytes(key)
+        except Exception:   # noqa
+            rec.note('mixed/reprotect-refused')
+            return
+        # whatever protect() did: the subkey's secret integers must still be recoverable (old or new passphrase), never replaced
+        want = keypool.secret_ints(sub)
+        got = None
+        for p in wire.split_packets(out):
+            if p.tag == 7:
+                sk = rkeys.parse_secret_body(p.body)
+                for cand in (pw, 'new passphrase'):
+                    try:
+                        got = rkeys.unlock(sk, cand) if sk.usage else sk.secret
+                        break
+                    except Exception:   # noqa
+                        continue
+        if got is None or {k: int(v) for k, v in got.items()} != {k: int(v) for k, v in want.items()}:
+            rec.finding('foreign', 'protect-destroys-locked-subkey', case, 'after protect() on a key whose subkey was locked, the exported subkey no longer yields its secret integers under any passphrase used')
+        return
+    try:
+        with warnings.catch_warnings():
+            warnings.simplefilter('ignore')
+            with key.unlock(pw):
+                if not subkey.is_unlocked:
+                    rec.finding('foreign', 'unlock-leaves-protected-subkey-locked/' + shape, case, '')
+                else:
+                    try:
+                        session = bytes(range(16))
+                        lit = wire.build_packet(11, grammar.build_literal(0x62, b'', 0, b'decrypt me'))
+                        eblob = wire.build_packet(1, renc.pkesk_build(keypool.ref_public(sub), 7, session)) + wire.build_packet(18, renc.seipd_build(7, session, lit))
+                        out = subkey.decrypt(pgpy.PGPMessage.from_blob(eblob))
+                        if bytes(out.message) != b'decrypt me':
+                            rec.finding('foreign', 'does-not-work-unlocked/' + shape, case, 'decrypt returned something else')
+                    except Exception as e:   # noqa
+                        rec.finding('foreign', 'does-not-work-unlocked/' + shape, case, repr(e))
+    except Exception as e:   # noqa
+        rec.finding('foreign', 'right-passphrase-rejected/' + shape, case, repr(e))
+    if subkey.is_unlocked or walk_for_secrets(key, [sub]):
+        rec.finding('foreign', 'not-locked-after-scope/' + shape, case, '')
+    if bytes(key) != blob:
+        rec.finding('foreign', 're-export-differs/' + shape, case, '')
+
+
 def gnu_dummy_case(rec, kid):
     import pgpy
     a, c_, params, secret, curve, kdf = keypool.numbers(kid)
@@ -443,6 +518,8 @@ def w_foreign(arg):
             foreign_case(rec, kid, SUBS[j], [254, 255][j % 2], 'iterated', [9, 7, 3, 13][j], [8, 2, 10, 1][j], longpw=True)
             gnu_dummy_case(rec, kid)
             plain_sub_case(rec, kid, SUBS[j])
+            for shape in ('plain-primary', 'dummy-primary', 'reprotect'):
+                mixed_case(rec, kid, SUBS[j], shape)
     return rec
 
 
@@ -464,6 +541,8 @@ def replay(case):
         foreign_case(rec, case['kid'], case['sub'], case['usage'], case['spec'], case['cipher'], case['hash'], case.get('mixed', False), case.get('longpw', False))
     elif case.get('kind') == 'gnu-dummy':
         gnu_dummy_case(rec, case['kid'])
+    elif case.get('kind') == 'mixed':
+        mixed_case(rec, case['kid'], case['sub'], case['shape'])
     elif case.get('kind') == 'plain-sub':
         plain_sub_case(rec, case['kid'], case['sub'])
     else:
